@@ -49,6 +49,7 @@ class Cls:
     self.idx, self.name, self.fields, self.depth = idx, name, fields, depth
     self.width = sum(sh_width(s) for _, s in fields)
     self.pycls = None; self.src = {}; self.fn_globals = {}
+    self.evals = []      # the class objects obtained by evaluating this SAME definition again at later points of the run
     self.has_list = any(sh_has_list(s) for _, s in fields)
   def spec(self):
     return {'name': self.name, 'fields': [[n, sh_spec(s)] for n, s in self.fields]}
@@ -138,7 +139,7 @@ def run(ctx):
       if not (0 <= u < (1 << s[1])): raise NotWellTyped(f'leaf value {u} out of range of Bits{s[1]}')
       return u
     if s[0] == 's':
-      if type(o) is not s[1].pycls: raise NotWellTyped(f'{o!r} (class with fields {list(getattr(type(o), "__bitstruct_fields__", {}))}) is not an instance of the declared class {s[1].name} with fields {[n for n, _ in s[1].fields]}')
+      if type(o) is not s[1].pycls and not any(type(o) is e for e in s[1].evals): raise NotWellTyped(f'{o!r} (class with fields {list(getattr(type(o), "__bitstruct_fields__", {}))}) is not an instance of the declared class {s[1].name} with fields {[n for n, _ in s[1].fields]}')
       return [observe(f, getattr(o, n)) for n, f in s[1].fields]
     if not isinstance(o, list) or len(o) != s[1]: raise NotWellTyped(f'{o!r} is not a list of {s[1]}')
     return [observe(s[2], x) for x in o]
@@ -186,6 +187,7 @@ def run(ctx):
         for d in reversed(dims): s = ('l', d, s)
         return s
       kind = 'b'
+    if budget >= 256 and rng.random() < 0.2: return ('b', rng.randrange(256, budget + 1))     # wide leaf, outside the pregenerated BitsN
     ws = [w for w in LEAF_W if w <= budget]
     return ('b', rng.choice(ws))
   def rand_fields(max_depth, budget=None):
@@ -202,8 +204,10 @@ def run(ctx):
       if fields and rng.random() < 0.15: s = fields[-1][1] if sh_width(fields[-1][1]) <= budget - rest else s   # two equal fields in a row
       fields.append((n, s)); budget -= sh_width(s)
     return fields
+  first_bits = {}        # the BitsN class object each width had when it was first used in a declaration
   def ty(s):
-    return mk_bits(s[1]) if s[0] == 'b' else s[1].pycls if s[0] == 's' else [ty(s[2])] * s[1]
+    if s[0] == 'b': return first_bits.setdefault(s[1], mk_bits(s[1]))
+    return s[1].pycls if s[0] == 's' else [ty(s[2])] * s[1]
   def gen_class(max_depth, forced=None, name=None):
     """declare one bitstruct type; whatever pymtl3 hands back is afterwards checked against THIS declaration"""
     idx = len(classes)
@@ -327,6 +331,42 @@ def run(ctx):
     rng.shuffle(variants)
     made = [x for x in (gen_class(4, v, name=fam) for v in variants) if x is not None]
     nest_family(made, f'{k}')
+  # ---- the same definitions evaluated again, after MANY other types and Bits widths came into existence ----
+  def sweep(n):
+    """a parameter sweep: n message types with n distinct wide payload widths (none of them pregenerated)"""
+    made = 0
+    for w in rng.sample(range(256, 1016), n):
+      if w in (384, 512): continue
+      try: mk_bitstruct(f'Sweep{uniq}_{w}', {'opq': mk_bits(8), 'data': mk_bits(w)})(1, 2).to_bits(); made += 1
+      except Exception as e:
+        ctx.violation(f'C06:create:sweep', f'creating bitstruct Sweep_{w} {{opq:Bits8, data:Bits{w}}} raised {e!r}', {'width': w, 'traceback': traceback.format_exc()[-800:]})
+    return made
+  def reevaluate(how):
+    """every definition once more (bottom-up, nested definitions first): through the factory call or through @bitstruct source text"""
+    for c in classes:
+      def ty2(s): return mk_bits(s[1]) if s[0] == 'b' else s[1].evals[-1] if s[0] == 's' else [ty2(s[2])] * s[1]
+      try:
+        if how == 'factory' or not c.name.isidentifier():
+          E = mk_bitstruct(c.name, {n: ty2(s) for n, s in c.fields})
+        else:
+          def ex(s): return f'mk_bits({s[1]})' if s[0] == 'b' else f'_N{s[1].idx}' if s[0] == 's' else f'[{ex(s[2])}]*{s[1]}'
+          ns = {'bitstruct': BS.bitstruct, 'mk_bits': mk_bits}
+          for k in classes[:c.idx]: ns[f'_N{k.idx}'] = k.evals[-1]
+          exec(f'@bitstruct\nclass {c.name}:\n' + ''.join(f'  {n}: {ex(s_)}\n' for n, s_ in c.fields), ns)
+          E = ns[c.name]
+        if list(getattr(E, '__bitstruct_fields__', {})) != [n for n, _ in c.fields] or E.nbits != c.width: raise ValueError('the re-evaluated definition has other fields / another width')
+      except Exception as e:
+        ctx.violation('C06:create-again:' + hashlib.sha1(json.dumps(c.spec()).encode()).hexdigest()[:10],
+                      f'evaluating the definition of {c.name} again ({how}) failed: {e!r}', {'shape': c.spec(), 'how': how, 'traceback': traceback.format_exc()[-800:]})
+        E = c.evals[-1]
+      c.evals.append(E)
+  for c in classes: c.evals = [c.pycls]
+  reevaluate('factory')                              # right away
+  ctx.extra['sweep_types'] = sweep(45 if quick else 70)
+  reevaluate('factory'); reevaluate('decorator')     # ... and after the sweep
+  ctx.extra['bits_widths_whose_class_object_changed'] = sorted(n for n, k in first_bits.items() if mk_bits(n) is not k)
+  ctx.extra['on_demand_bits_widths_used'] = len([n for n in first_bits if n > 255 and n not in (384, 512)])
+  ctx.extra['definitions_with_several_class_objects'] = sum(1 for c in classes if len({id(e) for e in c.evals}) > 1)
   shape_defs = '\n'.join(f'Definition T{c.idx} : shape := {cls_term(c)}.' for c in classes)
   imports = 'Base.Prelude Struct.Shape Struct.Layout'
 
@@ -338,7 +378,7 @@ def run(ctx):
       ctx.violation(f'C06:tgen:capture:{",".join(missing)}', f'could not capture the generated source of {missing} for {c.name} (generation path changed)',
                     {'shape': c.spec(), 'captured': sorted(c.src)}, found_input=False)
       continue
-    def pytype(sh): return mk_bits(sh[1]) if sh[0] == 'b' else sh[1].pycls
+    def pytype(sh): return first_bits.get(sh[1], None) if sh[0] == 'b' else sh[1].pycls
     parsers = [
       ('__init__',     lambda: 'GClone [' + '; '.join(TR.t_ctree(t) for t in TR.parse_init(c, c.src["__init__"], c.fn_globals["__init__"], pytype)) + ']'),
       ('to_bits',      lambda: f'GToBits {zlit(int(c.pycls.nbits))} {TR.t_paths(TR.parse_to_bits(c, c.src["to_bits"]))}'),
@@ -387,21 +427,22 @@ def run(ctx):
 
   # ---------------- instances: every way of building one ----------------
   def is_zero(v): return v == 0 if isinstance(v, int) else all(is_zero(x) for x in v)
-  def build(s, v, dflt=0.0, in_list=False):
+  def ev_cls(c, ev): return c.evals[ev % len(c.evals)] if c.evals else c.pycls
+  def build(s, v, dflt=0.0, in_list=False, ev=0):
     """explicit constructor arguments; an all-zero struct / list FIELD is left to its default (None) with probability dflt"""
     if s[0] == 'b': return mk_bits(s[1])(v) if (in_list or rng.random() < 0.7) else v
     if s[0] == 's':
-      args = [None if (f[0] != 'b' and is_zero(x) and rng.random() < dflt) else build(f, x, dflt) for (_, f), x in zip(s[1].fields, v)]
-      return s[1].pycls(*args)
-    return [build(s[2], x, dflt, True) for x in v]
-  def mk_inst(c, v, how):
-    s = ('s', c)
+      args = [None if (f[0] != 'b' and is_zero(x) and rng.random() < dflt) else build(f, x, dflt, False, ev) for (_, f), x in zip(s[1].fields, v)]
+      return ev_cls(s[1], ev)(*args)
+    return [build(s[2], x, dflt, True, ev) for x in v]
+  def mk_inst(c, v, how, ev=0):
+    s = ('s', c); K = ev_cls(c, ev)
     if how == 'auto':
       how = 'default' if (is_zero(v) and rng.random() < 0.5) else rng.choice(['args', 'args', 'partial', 'from_bits'])
     if how == 'default':
-      assert is_zero(v); o = c.pycls()
-    elif how == 'from_bits': o = c.pycls.from_bits(mk_bits(c.width)(v_pack(s, v)))
-    else: o = build(s, v, 1.0 if how == 'partial' else 0.0)
+      assert is_zero(v); o = K()
+    elif how == 'from_bits': o = K.from_bits(mk_bits(c.width)(v_pack(s, v)))
+    else: o = build(s, v, 1.0 if how == 'partial' else 0.0, False, ev)
     l = ids(s, o, [])
     if len(set(l)) != len(l):
       viol_value('alias-within', c, f'an instance built by {how} contains the SAME object at {len(l) - len(set(l))} different positions '
@@ -418,7 +459,7 @@ def run(ctx):
     who = rng.random() < 0.5
     hows = (how_a, how_b)
     try:
-      a, ha = mk_inst(c, va, how_a); bobj, hb = mk_inst(c, vb, how_b)
+      a, ha = mk_inst(c, va, how_a, rng.randrange(4)); bobj, hb = mk_inst(c, vb, how_b, rng.randrange(4))     # possibly through different evaluations of the definition
       hows = (ha, hb)
       def write(tgt):
         ub = int(leaf_obj(s, tgt, p).uint()); u = (ub + 1 + (rng.randrange((1 << w) - 1) if w > 1 else 0)) % (1 << w)
@@ -429,7 +470,7 @@ def run(ctx):
         obs = (oa, oa); scop = 'ScPoke'
       elif op in ('clone', 'deepcopy'):
         cpy = a.clone() if op == 'clone' else copy.deepcopy(a)
-        if type(cpy) is not c.pycls or not (cpy == a):
+        if type(cpy) is not type(a) or not (cpy == a):
           viol_value(op + '-neq', c, f'{op}() is not equal to the original', {'value': va, 'built_by': hows})
         shared = set(ids(s, a, [])) & set(ids(s, cpy, []))
         if shared:
@@ -437,6 +478,18 @@ def run(ctx):
         scan_one(c, cpy, op, va, vb)
         u = write(cpy if who else a)
         obs = (observe(s, a), observe(s, cpy)); scop = 'ScClone'
+      elif op in ('imatmul_other', 'ilshift_other'):
+        oth = [x for x in classes if x.width == c.width and x.pycls is not c.pycls]
+        if not oth: return
+        oc = rng.choice(oth); ov = v_unpack(('s', oc), rng.getrandbits(c.width)); src, _ = mk_inst(oc, ov, 'auto', rng.randrange(4))
+        if op == 'imatmul_other': a @= src
+        else:
+          a <<= src; a._flip()
+        if packed(a) != packed(src) or observe(s, a) != v_unpack(s, packed(src)) or observe(('s', oc), src) != ov:
+          viol_value(op, c, f'x {"@=" if op == "imatmul_other" else "<<="} y with y of ANOTHER bitstruct class of the same width did not copy the packed value '
+                     f'(x.to_bits() = {hex(packed(a))}, y.to_bits() = {hex(packed(src))})', {'value': va, 'other_shape': oc.spec(), 'other': ov, 'built_by': hows})
+        ctx.count((op, c.spec(), oc.spec(), repr(va), repr(ov)), True, cls='copy:' + op)
+        return
       elif op in ('imatmul_bits', 'ilshift_bits'):
         if op == 'imatmul_bits': a @= bobj.to_bits()
         else:
@@ -522,7 +575,7 @@ def run(ctx):
       for other_b in (bv, bw):
         w_ = v_unpack(s, other_b)
         try:
-          z = build(s, w_)
+          z = build(s, w_, 0.0, False, rng.randrange(1, 4))      # through another evaluation of the same definition
           r1, r2, r3 = (x == z), (z == x), (x != z)
           if type(r1) is not bool or r1 != r2 or r3 == r1:
             viol_value('eq', c, f'== / != are inconsistent: x==z {r1!r}, z==x {r2!r}, x!=z {r3!r}', {'value': v, 'other': w_})
@@ -543,7 +596,7 @@ def run(ctx):
           viol_value('hash', c, f'hash raised {e!r}', {'value': v})
       # ---- copies: clone / deepcopy / @= / <<= , then an in-place write to one leaf of one side
       va = v; vb = v_unpack(s, rng.getrandbits(W) if bi % 2 else full ^ bv)
-      all_ops = ['poke', 'clone', 'deepcopy', 'imatmul', 'imatmul_bits', 'ilshift_bits', 'ilshift_noflip', 'ilshift_flip', 'ilshift_poke_flip']
+      all_ops = ['poke', 'clone', 'deepcopy', 'imatmul', 'imatmul_bits', 'ilshift_bits', 'imatmul_other', 'ilshift_other', 'ilshift_noflip', 'ilshift_flip', 'ilshift_poke_flip']
       for op in (all_ops if (not quick or (c.idx < ndir and bi < 3)) else rng.sample(all_ops, 2)):
         scenario(c, op, va, vb, 'auto', 'auto')
     # ---- default-constructed and partly default-constructed instances, as destination, as source, and written in place
@@ -599,7 +652,7 @@ def run(ctx):
       sh = slot_shape(c, kind); v = val(sh)
       how = 'bits' if kind == 'bits' else ('default' if (is_zero(v) and rng.random() < 0.5) else rng.choice(['args', 'partial', 'from_bits', 'from_bits']))
       kinds.append(kind); nxt_defined.append(set())
-      return {'op': 'new', 'kind': list(kind) if isinstance(kind, tuple) else kind, 'value': v, 'how': how}
+      return {'op': 'new', 'kind': list(kind) if isinstance(kind, tuple) else kind, 'value': v, 'how': how, 'ev': rng.randrange(4)}
     def pick_kind():
       r = rng.random()
       if r < 0.45: return 'T'
@@ -608,11 +661,11 @@ def run(ctx):
     seq.append(new('T'))
     if rng.random() < 0.6: seq.append(new('T'))
     if rng.random() < 0.7: seq.append(new('bits'))
-    if others and rng.random() < 0.4: seq.append(new(('other', rng.choice(others).idx)))
+    if others and rng.random() < 0.7: seq.append(new(('other', rng.choice(others).idx)))
     def leaves_under(sh, pth): return {tuple(pth) + lp for lp, _ in sh_leaves(sh)}
     while len(seq) < nsteps:
       n = len(kinds); r = rng.random(); i = rng.randrange(n)
-      shi = slot_shape(c, kinds[i]); pth, sh = rng.choice(slot_nodes(shi))
+      shi = slot_shape(c, kinds[i]); pth, sh = ((), shi) if rng.random() < 0.3 else rng.choice(slot_nodes(shi))
       flippable = [(a, q) for a in range(n) for q, shq in slot_nodes(slot_shape(c, kinds[a])) if leaves_under(shq, q) <= nxt_defined[a]]
       if pend and r < 0.25:
         a, q = pend.pop(rng.randrange(len(pend))); seq.append({'op': 'flip', 'i': a, 'path': [list(x) for x in q]})
@@ -624,9 +677,11 @@ def run(ctx):
         if nb: nxt_defined[i] |= leaves_under(sh, pth); pend.append((i, pth))
       elif r < 0.70:
         w = sh_width(sh)
-        srcs = [(a, q) for a in range(n) for q, shq in slot_nodes(slot_shape(c, kinds[a])) if sh_width(shq) == w]
+        cand = [(a, q, shq) for a in range(n) for q, shq in slot_nodes(slot_shape(c, kinds[a])) if sh_width(shq) == w]
+        srcs = [(a, q) for a, q, _ in cand]
         far = [x for x in srcs if x[0] != i]
-        a, q = rng.choice(far if (far and rng.random() < 0.85) else srcs)
+        cross = [(a, q) for a, q, shq in cand if sh[0] == 's' and shq[0] == 's' and shq[1] is not sh[1]]      # a struct of ANOTHER class, same width
+        a, q = rng.choice(cross if (cross and rng.random() < 0.4) else far if (far and rng.random() < 0.85) else srcs)
         nb = rng.random() < 0.5
         seq.append({'op': 'assign', 'nb': nb, 'i': i, 'path': [list(x) for x in pth], 'j': a, 'src_path': [list(x) for x in q],
                     'how': rng.choice(['inplace', 'attr']), 'rhs': rng.choice(['live', 'live', 'to_bits'])})
@@ -635,7 +690,7 @@ def run(ctx):
       elif r < 0.85 and n < 5:
         seq.append({'op': 'clone', 'i': i, 'how': rng.choice(['clone', 'deepcopy'])}); kinds.append(kinds[i]); nxt_defined.append(set())
       elif r < 0.92 and n < 5:
-        seq.append({'op': 'reunpack', 'j': i}); kinds.append('T'); nxt_defined.append(set())      # c.from_bits(x_j.to_bits()) for ANY live x_j
+        seq.append({'op': 'reunpack', 'j': i, 'ev': rng.randrange(4)}); kinds.append('T'); nxt_defined.append(set())      # c.from_bits(x_j.to_bits()) for ANY live x_j
       else: seq.append({'op': 'nop'})
     for d in seq: d['observe'] = rng.random() < 0.75
     seq[-1]['observe'] = True
@@ -665,7 +720,7 @@ def run(ctx):
         if op == 'new':
           kind = tuple(d['kind']) if isinstance(d['kind'], list) else d['kind']
           sh = slot_shape(c, kind)
-          o = mk_bits(sh[1])(d['value']) if sh[0] == 'b' else mk_inst(sh[1], d['value'], d['how'])[0]
+          o = mk_bits(sh[1])(d['value']) if sh[0] == 'b' else mk_inst(sh[1], d['value'], d['how'], d.get('ev', 0))[0]
           objs.append(o); shapes.append(sh); tags.append(0 if sh[0] == 'b' else 1 + sh[1].idx)
           ops.append(f'QNew {tags[-1]} {sh_term(sh)} ({v_term(sh, d["value"])})')
         elif op == 'clone':
@@ -673,7 +728,7 @@ def run(ctx):
           shapes.append(shapes[d['i']]); tags.append(tags[d['i']]); ops.append(f'QClone {d["i"]}')
         elif op == 'reunpack':
           sh = ('s', c)
-          objs.append(c.pycls.from_bits(objs[d['j']].to_bits())); shapes.append(sh); tags.append(1 + c.idx)
+          objs.append(ev_cls(c, d.get('ev', 0)).from_bits(objs[d['j']].to_bits())); shapes.append(sh); tags.append(1 + c.idx)
           add(f'QNew {tags[-1]} {sh_term(sh)} ({v_term(sh, v_unpack(sh, 0))})', 'None')
           ops.append(f'QAssign false {len(objs) - 1} [] {d["j"]} []')
         elif op == 'write':
@@ -703,7 +758,7 @@ def run(ctx):
             eqs.append(bool(e)); hs.append(hv[a] == hv[b])
         for a, o in enumerate(objs):      # an equal instance obtained independently must compare and hash equal, whatever was done to o before
           if shapes[a][0] != 's': continue
-          f = shapes[a][1].pycls.from_bits(o.to_bits())
+          f = ev_cls(shapes[a][1], k + a).from_bits(o.to_bits())       # round trip through some evaluation of the same definition
           if not (f == o) or not (o == f): fail('roundtrip', k, f'from_bits(x.to_bits()) != x for object {a}', {'value': vals[a][0]})
           elif hash(f) != hv[a]: fail('hash', k, f'object {a} and an equal instance built by from_bits(x.to_bits()) have different hashes', {'value': vals[a][0]})
         allid = [x for sh, o in zip(shapes, objs) for x in ids(sh, o, [])]
